@@ -628,6 +628,9 @@ class Expression:
         with self.ebpf.get_free_register(dst) as dst:
             with self.get_address(dst, long) as (src, fmt):
                 self.load(dst, src, 0, fmt, long)
+                if long is None:
+                    # nobody asked for a width: report the one we loaded
+                    long = isinstance(fmt, str) and fmt[-1] in "QqAx"
                 yield dst, long
 
     @contextmanager
